@@ -75,6 +75,8 @@ struct Gates {
     /// bumped by `step`: lets exactly the currently parked threads through a
     /// gate that stays closed for later arrivals
     generation: HashMap<String, u64>,
+    /// how many parked threads have left the probe again
+    passed: HashMap<String, u64>,
 }
 
 fn gates() -> &'static (Mutex<Gates>, Condvar) {
@@ -147,7 +149,14 @@ pub fn probe(name: &str) {
     if let Some(c) = g.parked.get_mut(name) {
         *c -= 1;
     }
+    *g.passed.entry(name.to_string()).or_insert(0) += 1;
     cv.notify_all();
+}
+
+/// Number of threads/tasks that parked at `name` and have since been let through.
+pub fn passed(name: &str) -> u64 {
+    let (m, _) = gates();
+    m.lock().unwrap().passed.get(name).copied().unwrap_or(0)
 }
 
 /// Async probe point: polls the gate with short sleeps so it never holds a
@@ -177,6 +186,7 @@ pub async fn probe_async(name: &str) {
             if let Some(c) = g.parked.get_mut(name) {
                 *c -= 1;
             }
+            *g.passed.entry(name.to_string()).or_insert(0) += 1;
             cv.notify_all();
             return;
         }
